@@ -10,6 +10,7 @@ mod c11;
 mod c04;
 mod c14;
 mod c10;
+mod c18;
 
 fn main() {
     std::panic::set_hook(Box::new(|_| {}));
@@ -47,6 +48,8 @@ fn main() {
         "c14-record" => c14::record(rest),
         "c10-replay" => c10::replay(rest),
         "c10-record" => c10::record(rest),
+        "c18-replay" => c18::replay(rest),
+        "c18-record" => c18::record(rest),
         x => {
             eprintln!("unknown subcommand {}", x);
             std::process::exit(2);
